@@ -246,7 +246,7 @@ type PathIndex struct {
 
 func (index PathIndex) DeepCopy() PathIndex {
 	clone := PathIndex{
-		Constant: index.Constant,
+		Constant: deepCopyValue(index.Constant),
 	}
 
 	if index.Argument != nil {
@@ -373,7 +373,7 @@ type AssignmentValue struct {
 
 func (value *AssignmentValue) DeepCopy() AssignmentValue {
 	clone := AssignmentValue{
-		Constant: value.Constant,
+		Constant: deepCopyValue(value.Constant),
 	}
 
 	if value.Argument != nil {
@@ -453,7 +453,7 @@ func (constraint AssignmentConstraint) DeepCopy() AssignmentConstraint {
 	return AssignmentConstraint{
 		Argument:  constraint.Argument.DeepCopy(),
 		Op:        constraint.Op,
-		Parameter: constraint.Parameter,
+		Parameter: deepCopyValue(constraint.Parameter),
 	}
 }
 
